@@ -293,6 +293,7 @@ func checkC06(c *Ctx) {
 		c.Check(instrDominates(convCall, weekCall), "C06-S6", "order(convert,start-of-week)", weekCall.Pos(), "start-of-week text is produced after the conversion (sees the advanced week)",
 			"the start-of-week text is produced before the conversion: it shows the previous week at a rollover")
 	}
+	checkSeedTimeBase(c, "C06-S7")
 	c.MinInstances("C06-S1", 6)
 	c.MinInstances("C06-S2", 16)
 	c.MinInstances("C06-S3", 13)
@@ -652,4 +653,94 @@ func offsetInitValue(P *Prog, g *ssa.Global) (int64, bool) {
 		return 0, false
 	}
 	return eval(stores[0].Val, 0)
+}
+
+
+// checkSeedTimeBase (C06-S7): whatever New derives from the start time for a
+// constellation's state is computed on that constellation's own time scale
+// (it depends on the constellation's offset), not on raw UTC.
+func checkSeedTimeBase(c *Ctx, rule string) {
+	P := c.P
+	newFn := P.Func("rtcm/handler", "New")
+	H := P.Named("rtcm/handler", "Handler")
+	if newFn == nil || H == nil {
+		c.Unresolved(rule, "rtcm/handler.New")
+		return
+	}
+	var startParam *ssa.Parameter
+	for _, p := range newFn.Params {
+		if isTimeTime(p.Type()) {
+			startParam = p
+		}
+	}
+	if startParam == nil {
+		c.Unresolved(rule, "start time parameter")
+		return
+	}
+	t := NewTaint(P)
+	t.IsSource = func(v ssa.Value) bool { return v == ssa.Value(startParam) }
+	t.Scope = func(fn *ssa.Function) bool { return fn == newFn }
+	t.Run()
+	token4 := map[string]string{"gps": "gps", "galileo": "gps", "glonass": "glonass", "beidou": "beidou"}
+	n := 0
+	eachInstr(newFn, func(ins ssa.Instruction) {
+		st, ok := ins.(*ssa.Store)
+		if !ok {
+			return
+		}
+		fa, ok := st.Addr.(*ssa.FieldAddr)
+		if !ok {
+			return
+		}
+		f, _ := fieldOf(fa)
+		if f == nil || !types.Identical(fa.X.Type().Underlying().(*types.Pointer).Elem(), H) {
+			return
+		}
+		want := ""
+		for k, v := range token4 {
+			if strings.Contains(strings.ToLower(f.Name()), k) {
+				want = v
+			}
+		}
+		if want == "" || !t.Tainted(st.Val) {
+			return
+		}
+		n++
+		dep := dependsOn(st.Val, func(v ssa.Value) bool {
+			g := loadOfGlobal(v)
+			return g != nil && strings.Contains(strings.ToLower(g.Name()), want)
+		})
+		c.Check(dep, rule, "time-base("+f.Name()+")", ins.Pos(), "derived from the start time on the "+want+" time scale (depends on that constellation's offset)",
+			"Handler field "+f.Name()+" is derived from the start time in UTC without the constellation's own offset: near the constellation's day/week boundary the state is seeded from the wrong day or week")
+	})
+	if n == 0 {
+		c.Fail(rule, "time-base", newFn.Pos(), "unresolved", "New derives no constellation state from the start time")
+	}
+}
+
+// dependsOn: v is computed from some value satisfying pred.
+func dependsOn(v ssa.Value, pred func(ssa.Value) bool) bool {
+	seen := map[ssa.Value]bool{}
+	var walk func(v ssa.Value, d int) bool
+	walk = func(v ssa.Value, d int) bool {
+		if v == nil || seen[v] || d > 40 {
+			return false
+		}
+		seen[v] = true
+		if pred(v) {
+			return true
+		}
+		ins, ok := v.(ssa.Instruction)
+		if !ok {
+			return false
+		}
+		var ops []*ssa.Value
+		for _, op := range ins.Operands(ops) {
+			if op != nil && *op != nil && walk(*op, d+1) {
+				return true
+			}
+		}
+		return false
+	}
+	return walk(v, 0)
 }
